@@ -1,4 +1,6 @@
-package parquet_test
+package scratch
+
+// D84 (C07): failed (panicked) before the fix commit; see known_findings.json.
 
 // PRE-EXISTING (unchanged tree), borderline for C07: with a bits-per-value
 // setting of 0 (parquet.SplitBlockFilter(0, ...)) the filter has zero blocks,
@@ -8,7 +10,7 @@ package parquet_test
 // answers true). Not a false negative, but the "bits-per-value settings"
 // dimension of the property is not handled for 0.
 //
-// Place in the repository root (package parquet_test) and run:
+// Place in the repository root (package scratch) and run:
 //   GOFLAGS=-mod=mod GOPROXY=off go test -vet=off -count=1 -timeout 120s -run TestC07PreexistingZeroBitsPerValue .
 
 import (
@@ -18,7 +20,7 @@ import (
 	"github.com/parquet-go/parquet-go"
 )
 
-func TestC07PreexistingZeroBitsPerValue(t *testing.T) {
+func TestD84ZeroBitsPerValue(t *testing.T) {
 	type R struct {
 		A string `parquet:"a"`
 	}
